@@ -161,6 +161,13 @@ fn tamper(cx: &mut Cx, verifier: NodeId, key: Arc<KeyMat>, p: Presentation) {
     }
     if p.revealed.len() >= 2 && p.revealed[0] != p.revealed[1] { let mut q = p.clone(); q.revealed.swap(0, 1); deliver(cx, verifier, q, "revealed_swap".into(), false); }
     if !p.revealed.is_empty() { let mut q = p.clone(); q.revealed.pop(); deliver(cx, verifier, q, "revealed_drop_last".into(), false); }
+    // a surplus entry at the end of the list; the whole attribute vector with something at the hidden positions
+    { let mut q = p.clone(); q.revealed.push(Integer::from(5)); deliver(cx, verifier, q, "revealed_append".into(), false); }
+    if !p.hidden.is_empty() {
+        let mut full: Vec<Integer> = Vec::new(); let mut k = 0;
+        for i in 0..n { if p.hidden.contains(&i) { full.push(gen_attr(cx.run_seed, 850 + i as u64, 0).value); } else { full.push(p.revealed[k].clone()); k += 1; } }
+        let mut q = p.clone(); q.revealed = full; deliver(cx, verifier, q, "revealed_full_vector_with_guesses".into(), false);
+    }
     // keys and bases
     if let Some(other) = other_pool_key(key.idx) { let mut q = p.clone(); q.pk = other.pk.clone(); deliver(cx, verifier, q, "misroute_key".into(), false); }
     // (a base only matters for hidden attributes and for revealed non-zero ones: a_i^0 = 1)
